@@ -1,7 +1,7 @@
-SPECIFICATION SpecLegal
+SPECIFICATION SpecRep
 CONSTANT Cfg <- MCCfg2
-CONSTANT Solutions <- AllSolutions
-CONSTANT MaxEmpty = 3
+CONSTANT Solutions <- OneSolution
+CONSTANT MaxEmpty = 5
 CONSTANT Extra = 1
 INVARIANT TypeOK
 INVARIANT Protocol
